@@ -26,6 +26,34 @@ XV_DIGEST_STUB (md5, MD5_CTX, 16, MD5_Init, MD5_Update, MD5_Final, size_t)
 #define PREFIX "$1$"
 #endif
 
+#if defined M_sha256crypt
+#include "alg-sha256.h"
+XV_DIGEST_STUB (sha, SHA256_CTX, 32, SHA256_Init, SHA256_Update, SHA256_Final, size_t)
+#include "lib/crypt-sha256.c"
+#define METHOD_FN crypt_sha256crypt_rn
+#define PREFIX "$5$"
+#define SHA_DIGEST 32
+#define SHA_CHARS 43
+/* SHA-crypt.txt step 22 (e), SHA-256: digest byte triples in output order */
+static const unsigned char sha_perm[][3] = { {0, 10, 20}, {21, 1, 11}, {12, 22, 2}, {3, 13, 23}, {24, 4, 14},
+  {15, 25, 5}, {6, 16, 26}, {27, 7, 17}, {18, 28, 8}, {9, 19, 29} };
+#define SHA_NTRIPLES 10
+#endif
+#if defined M_sha512crypt
+#include "alg-sha512.h"
+XV_DIGEST_STUB (sha, SHA512_CTX, 64, SHA512_Init, SHA512_Update, SHA512_Final, size_t)
+#include "lib/crypt-sha512.c"
+#define METHOD_FN crypt_sha512crypt_rn
+#define PREFIX "$6$"
+#define SHA_DIGEST 64
+#define SHA_CHARS 86
+/* SHA-crypt.txt step 22 (e), SHA-512 */
+static const unsigned char sha_perm[][3] = { {0, 21, 42}, {22, 43, 1}, {44, 2, 23}, {3, 24, 45}, {25, 46, 4},
+  {47, 5, 26}, {6, 27, 48}, {28, 49, 7}, {50, 8, 29}, {9, 30, 51}, {31, 52, 10}, {53, 11, 32}, {12, 33, 54},
+  {34, 55, 13}, {56, 14, 35}, {15, 36, 57}, {37, 58, 16}, {59, 17, 38}, {18, 39, 60}, {40, 61, 19}, {62, 20, 41} };
+#define SHA_NTRIPLES 21
+#endif
+
 static const unsigned char spec_b64[65] =
   "./0123456789ABCDEFGHIJKLMNOPQRSTUVWXYZabcdefghijklmnopqrstuvwxyz";
 
@@ -36,9 +64,25 @@ void harness (void)
 {
   XV_IN (size_t, phr_len, nondet_size);
   XV_IN (size_t, set_len, nondet_size);
+#ifdef WEAK
+  /* memory-safety variant: strings in objects of exactly their length */
   XV_ASSUME (phr_len < 512 && set_len <= XV_MAXOBJ);
   XV_IN_BYTES (phr, phrase, phr_len, 1);
   XV_IN_BYTES (set, setting, set_len, 1);
+#else
+  /* functional variant: constant-size objects (CBMC bit-blasts them; symbolic
+     size objects go through its array theory, whose cost is quadratic in the
+     number of accesses).  Stated bound: strlen (setting) < SET_CAP (512 unless
+     the job says otherwise; always longer than the method's longest hash).  Reads past
+     the terminating NUL stay inside the object and are caught by the string
+     models' own obligations instead of object bounds.  */
+#ifndef SET_CAP
+#define SET_CAP 512
+#endif
+  XV_ASSUME (phr_len < 512 && set_len < SET_CAP);
+  XV_IN_BYTES_FIXED (phr, phrase, phr_len, 512);
+  XV_IN_BYTES_FIXED (set, setting, set_len, SET_CAP);
+#endif
   phr[phr_len] = 0;
   set[set_len] = 0;
   bool strs_ok = true;
@@ -47,7 +91,7 @@ void harness (void)
       if (k < phr_len && phr[k] == 0) strs_ok = false;
       if (k < set_len && set[k] == 0) strs_ok = false;
 #ifndef WEAK
-      if (k < set_len && !xv_passwd_safe (set[k])) strs_ok = false;
+      if (k < set_len && k < SET_CAP && !xv_passwd_safe (set[k])) strs_ok = false;
 #endif
     }
   XV_ASSUME (strs_ok);
@@ -85,6 +129,7 @@ void harness (void)
   unsigned char s_gk = gk < set_len ? set[gk] : 0;
 
   xv_phrase_p = phr; xv_phrase_n = phr_len; xv_phrase_absorbed = 0;
+  xv_parse_n = 0; xv_dec_n = 0;
   errno = 0;
   METHOD_FN ((const char *) phr, phr_len, (const char *) set, set_len, out, out_size, scr->b, scr_size);
   int err = errno;
@@ -133,6 +178,67 @@ void harness (void)
       }
     if (dp[20] != spec_b64[d[11] & 63] || dp[21] != spec_b64[d[11] >> 6]) enc_ok = false;
     XV_ASSERT ("C02,C06", enc_ok, "the 22 characters are the published permutation and radix-64 encoding of the final MD5 digest");
+  }
+#endif
+
+#if defined M_sha256crypt || defined M_sha512crypt
+  /* crypt(5) / SHA-crypt.txt: $5$[rounds=N$]salt[$...] with N a decimal
+     without leading zero, 1000 <= N <= 999999999, salt = up to 16 characters
+     ending at the first $.  */
+  static const char rp[8] = "rounds=";
+  bool custom = set_len >= 10;
+  for (unsigned i = 0; i < 7; i++)
+    if (custom && set[3 + i] != (unsigned char) rp[i]) custom = false;
+  size_t nd = 0;               /* digits of N */
+  bool run = true;
+  for (size_t k = 0; k < 12; k++)   /* XV_UNWIND 12 */
+    if (custom && run) { if (10 + k < set_len && xv_is_digit (set[10 + k])) nd++; else run = false; }
+  size_t salt_off = custom ? 10 + nd + 1 : 3;
+  /* the value strtoul gives the digit run (strtoul's contract; the relation
+     between digits and value is decimal notation itself) */
+  unsigned long N = custom && xv_parse_n == 1 ? xv_parse_log[0].v : 5000;
+  size_t s = 0;
+  bool ended = false;
+  for (size_t k = 0; k < 16; k++)   /* XV_UNWIND 16 */
+    if (!ended) { if (salt_off + k >= set_len || set[salt_off + k] == '$') ended = true; else s++; }
+  XV_ASSERT ("C01", !custom || (xv_parse_n == 1 && xv_parse_log[0].at == (const char *) set + 10),
+             "a rounds= field is parsed from the digits that follow it");
+  XV_ASSERT ("C01,C11", !custom || (nd >= 4 && nd <= 9 && set[10] != '0' && set[10 + nd] == '$' && N >= 1000 && N <= 999999999),
+             "success with a rounds= field only for a canonical decimal 1000..999999999 terminated by $");
+  XV_ASSERT ("C06,C01", out[0] == '$' && out[1] == PREFIX[1] && out[2] == '$', "method prefix");
+  if (custom)
+    {
+      XV_ASSERT ("C01,C06", gk >= 7 + nd + 1 || out[3 + gk] == set[3 + gk],
+                 "rounds=N$ is reproduced verbatim (so re-hashing with the result parses the same cost)");
+      XV_ASSERT ("C01", xv_dec_n == 1 && xv_dec_log[0].v == N && xv_dec_log[0].at == (const char *) out + 10,
+                 "the printed rounds value is the parsed one");
+      XV_CANARY ("custom rounds path");
+    }
+  else
+    XV_CANARY ("default rounds path");
+  XV_ASSERT ("C06,C01", gk >= s || out[salt_off + gk] == set[salt_off + gk], "the salt (at most 16 characters, up to the first $) is copied verbatim");
+  XV_ASSERT ("C06", out[salt_off + s] == '$' && out[salt_off + s + 1 + SHA_CHARS] == 0, "$ separator, fixed-length digest, NUL");
+  XV_ASSERT ("C06", gk >= SHA_CHARS || xv_is_b64 (out[salt_off + s + 1 + gk]), "digest characters are from ./0-9A-Za-z");
+  XV_ASSERT ("C06", gk > salt_off + s + SHA_CHARS || xv_passwd_safe (out[gk]), "every character is passwd-safe");
+  XV_ASSERT ("C03", xv_phrase_absorbed >= 3, "the whole phrase is absorbed by the digest");
+  {
+    const unsigned char *d = xv_sha_last;
+    const unsigned char *dp = out + salt_off + s + 1;
+    bool enc_ok = true;
+    for (unsigned g = 0; g < SHA_NTRIPLES; g++)   /* XV_UNWIND 21 */
+      {
+        unsigned long w = ((unsigned long) d[sha_perm[g][0]] << 16) | ((unsigned long) d[sha_perm[g][1]] << 8) | d[sha_perm[g][2]];
+        for (unsigned j = 0; j < 4; j++)
+          if (dp[4 * g + j] != spec_b64[(w >> (6 * j)) & 63]) enc_ok = false;
+      }
+#if SHA_DIGEST == 32
+    { unsigned long w = ((unsigned long) d[31] << 8) | d[30];
+      for (unsigned j = 0; j < 3; j++) if (dp[40 + j] != spec_b64[(w >> (6 * j)) & 63]) enc_ok = false; }
+#else
+    { unsigned long w = d[63];
+      for (unsigned j = 0; j < 2; j++) if (dp[84 + j] != spec_b64[(w >> (6 * j)) & 63]) enc_ok = false; }
+#endif
+    XV_ASSERT ("C02,C06", enc_ok, "the digest characters are SHA-crypt.txt's permutation and radix-64 encoding of the final digest");
   }
 #endif
 #endif
